@@ -25,6 +25,7 @@ type LoopSpec struct {
 	Invariants []Clause
 	Unroll     int
 	Decreases  *Clause
+	Assigns    []Clause // pre-existing objects the loop may write (everything else allocated before the function is preserved)
 }
 
 type CallAssert struct {
@@ -345,7 +346,7 @@ func mkClause(src string, line int) (Clause, error) {
 	return Clause{Label: label, E: e, Src: s, Line: line}, nil
 }
 
-var loopRe = regexp.MustCompile(`^(\d+)?\s*(\(([^)]*)\))?\s+(invariant|unroll|decreases)\s+(.*)$`)
+var loopRe = regexp.MustCompile(`^(\d+)?\s*(\(([^)]*)\))?\s+(invariant|unroll|decreases|assigns)\s+(.*)$`)
 var callRefRe = regexp.MustCompile(`^(after|at)\s+call\s+(\S+?)(#(\d+))?\s*(when\s+(.*?))?\s*:\s*(.*)$`)
 
 func (fc *FuncContract) loopSpec(key string, vars []string) *LoopSpec {
@@ -444,6 +445,14 @@ func parseClause(fc *FuncContract, kw, rest string, line int) error {
 				return err
 			}
 			ls.Decreases = &c
+		case "assigns":
+			for _, part := range splitTop(m[5], ',') {
+				c, err := mkClause(part, line)
+				if err != nil {
+					return err
+				}
+				ls.Assigns = append(ls.Assigns, c)
+			}
 		}
 	case "assert":
 		m := callRefRe.FindStringSubmatch(strings.TrimSpace(rest))
